@@ -1779,7 +1779,24 @@ def r04s(rep, F):
                 'motionCost(s1, s2) is not symmetric under exchange of s1 and s2, but %s does not override isSymmetric() to return false: the '
                 'inherited answer is the state space\'s, and RRT* then re-uses the cost of the opposite edge -- stored costs are no longer '
                 'path costs' % f.record.split('::')[-1])
-    rep.require_count('R04s', 'objectives with a straight-line motion cost', n, 4)
+    # composite clause: a weighted sum of component motion costs is symmetric only if every component is -- the composite overrides
+    # isSymmetric() and asks each component (the flag conjunction that R06a requires of compound state spaces, for objectives)
+    mo = [g for g in F.by_name.get(B_ + 'MultiOptimizationObjective::isSymmetric', []) if g.body]
+    ok = False
+    if mo:
+        g = mo[0]
+        loops = [x for x in g.walk() if x['k'] in ('CXXForRangeStmt', 'ForStmt') and x.get('body')]
+        asks = any((c.get('callee') or '').endswith('OptimizationObjective::isSymmetric') and 'component' in g.fp(c['ch'][0]).lower()
+                   for lp in loops for c in g.walk(lp['body']))
+        over = any('components_' in g.fp(lp.get('range') or lp.get('cond') or lp['id']) for lp in loops)
+        ok = bool(loops) and asks and over
+    n += 1
+    rep.add('R04s', B_ + 'MultiOptimizationObjective::motionCost', 'direction-declared:composite', ok,
+            mo[0].loc if mo else F.one(B_ + 'MultiOptimizationObjective::motionCost').loc,
+            'isSymmetric() asks every component' if ok else
+            'the weighted sum of component motion costs does not override isSymmetric() with a conjunction over its components: with a '
+            'direction-dependent component it still claims a symmetric cost')
+    rep.require_count('R04s', 'objectives with a straight-line motion cost (plus the composite)', n, 5)
 
 
 def run(rep):
